@@ -377,6 +377,42 @@ def _memo(ctx: Ctx) -> None:
                 key_ok = False
             if used is None or not src(used).endswith("__last_seeds"):
                 seed_ok = False
+    # ---- nothing else survives an evaluation unless the instance NAME
+    # determines it (the memo is re-used whenever only the name matches)
+    from sa.srcmodel import inline_locals
+    xpar = fi.params[1] if len(fi.params) > 1 else "x"
+
+    class _DropName(ast.NodeTransformer):
+        def visit_Attribute(self, n: ast.Attribute) -> ast.AST:
+            if n.attr == "name":
+                return ast.Constant(value="<name>")
+            return self.generic_visit(n)
+    import copy as _copy
+    kept_bad = []
+    for st_ in ast.walk(fi.node):
+        if isinstance(st_, (ast.Assign, ast.AnnAssign, ast.AugAssign)) and \
+                getattr(st_, "value", None) is not None:
+            tgs = st_.targets if isinstance(st_, ast.Assign) else [
+                st_.target]
+            flat = [x_ for t_ in tgs for x_ in (
+                t_.elts if isinstance(t_, (ast.Tuple, ast.List)) else [t_])]
+            for t_ in flat:
+                if isinstance(t_, ast.Attribute) and src(t_.value) == "self":
+                    v_ = _DropName().visit(_copy.deepcopy(
+                        inline_locals(fi.node, st_.value)))
+                    if any(isinstance(n_, ast.Name) and n_.id == xpar
+                           for n_ in ast.walk(v_)):
+                        kept_bad.append((st_, t_.attr))
+    ctx.ob("D12.3", fi, kept_bad[0][0] if kept_bad else fi.node,
+           not kept_bad,
+           "what Hardness.evaluate keeps between two evaluations depends on "
+           "the evaluated instance only through its name" if not kept_bad
+           else "; ".join(
+               f"`self.{a_}` keeps a value computed from the evaluated "
+               "instance itself, but is re-used for every later instance "
+               "of the same name: the hardness of a candidate depends on "
+               "what was evaluated before it" for _, a_ in kept_bad[:2]),
+           construct="state kept between evaluations")
     ok = key_ok and seed_ok and store_ok and n_store >= 1 and n_reuse >= 1
     ctx.ob("D12.3", fi, node, ok,
            "the seed memo is keyed by the instance name, the seeds are "
